@@ -3,6 +3,7 @@ from __future__ import absolute_import, division, print_function
 from operator import getitem
 
 from tornado import gen
+from tornado.locks import Lock
 
 from dask.utils import apply
 from distributed.client import default_client
@@ -133,13 +134,21 @@ class gather(core.Stream):
     buffer
     scatter
     """
+    def __init__(self, *args, **kwargs):
+        # Held from the moment an element is waited on until it has been
+        # emitted, so that results leave in the order their futures arrived
+        # even when several updates are in flight at once
+        self._in_order = Lock()
+        super().__init__(*args, **kwargs)
+
     @gen.coroutine
     def update(self, x, who=None, metadata=None):
         client = default_client()
 
         self._retain_refs(metadata)
-        result = yield client.gather(x, asynchronous=True)
-        result2 = yield self._emit(result, metadata=metadata)
+        with (yield self._in_order.acquire()):
+            result = yield client.gather(x, asynchronous=True)
+            result2 = yield self._emit(result, metadata=metadata)
         self._release_refs(metadata)
 
         raise gen.Return(result2)
